@@ -8,8 +8,20 @@ import (
 	bolt "go.etcd.io/bbolt"
 )
 
-var u32 = binary.BigEndian.Uint32
-var u64 = binary.BigEndian.Uint64
+// a field that has never been written (the API allows creating a user with any subset of the
+// fields) reads as zero instead of panicking on the nil slice bolt returns for a missing key
+func u32(b []byte) uint32 {
+	if len(b) < 4 {
+		return 0
+	}
+	return binary.BigEndian.Uint32(b)
+}
+func u64(b []byte) uint64 {
+	if len(b) < 8 {
+		return 0
+	}
+	return binary.BigEndian.Uint64(b)
+}
 
 func i64ToB(value int64) []byte {
 	oct := make([]byte, 8)
